@@ -51,6 +51,10 @@ pub enum Op {
   OnErrorResumeNext(Resume),
   // ---- schedulers (synchronous default scheduler)
   ObserveOnDefault,
+  /// `.ref_count().observable()` / `.replay().observable()`: for a single subscriber the identity,
+  /// connected at its arrival and disconnected when it leaves (replay: over hot sources only, C13's known finding)
+  RefCount,
+  ReplayConn,
   SubscribeOnDefault,
   // ---- no functional reference (contract / teardown / release only)
   Timestamp,
@@ -112,6 +116,8 @@ impl Op {
       Op::RetryWhen(_) => "retry_when",
       Op::OnErrorResumeNext(_) => "on_error_resume_next",
       Op::ObserveOnDefault => "observe_on",
+      Op::RefCount => "ref_count",
+      Op::ReplayConn => "replay",
       Op::SubscribeOnDefault => "subscribe_on",
       Op::Timestamp => "timestamp",
       Op::TimeInterval => "time_interval",
@@ -443,6 +449,8 @@ pub fn build_typed(n: &Node, env: &Env) -> Built {
       }))
     }
     Op::ObserveOnDefault => Built::V(src.observe_on(schedulers::default_scheduler())),
+    Op::RefCount => Built::V(src.ref_count().observable()),
+    Op::ReplayConn => Built::V(src.replay().observable()),
     Op::SubscribeOnDefault => Built::V(src.subscribe_on(schedulers::default_scheduler())),
     Op::Timestamp => Built::Ts(src.timestamp()),
     Op::TimeInterval => Built::Dur(src.time_interval()),
